@@ -309,7 +309,15 @@ impl<'tcx> Interp<'tcx> {
         &mut self, st: &mut State, name: &str, _def: DefId, gargs: ty::GenericArgsRef<'tcx>, _inst: Option<Instance<'tcx>>,
         a: &[Val], tys: &[Ty<'tcx>], ret: Ty<'tcx>,
     ) -> Option<Parts> {
-        let n = name;
+        // dependency re-exports print as `sha2::digest::...` / `sha3::digest::...`
+        let owned;
+        let n = match name.find("digest::") {
+            Some(i) if i > 0 => {
+                owned = name[i..].to_string();
+                owned.as_str()
+            }
+            _ => name,
+        };
         // ----- formatting machinery on panic paths: opaque
         if n.starts_with("core::fmt::") || n.starts_with("core::panic::") {
             return one(Val::Top);
@@ -352,7 +360,15 @@ impl<'tcx> Interp<'tcx> {
                     self.model_obligation("rem-euclid-zero", y.lo > 0 || y.hi < 0, format!("rem_euclid(_, {})", y.short()));
                     if let (Some(c), Some(m)) = (x.is_const(), y.is_const()) {
                         if m != 0 {
-                            return one(Val::konst(c.rem_euclid(m), x.ty));
+                            let mut r = IntV::konst(c.rem_euclid(m), x.ty).with_taint(x.taint);
+                            if let Some(l) = &x.lin {
+                                if m > 1 && !l.terms.is_empty() {
+                                    if let Some(e) = self.atoms(st).expand_mod(l, m) {
+                                        r.canon = Some(Rc::new(e));
+                                    }
+                                }
+                            }
+                            return one(Val::Int(r));
                         }
                     }
                     let m = y.lo.abs().max(y.hi.abs());
